@@ -45,8 +45,13 @@ def rng_for(p):
 
 
 def uv(ctx, s, z, t, Tbc):
-    sol = ctx.call(s, np.atleast_1d(np.asarray(z, float)), t)
-    return (np.asarray(sol["temperature_rad"], float) / Tbc) ** 4, (np.asarray(sol["temperature_mat"], float) / Tbc) ** 4
+    # the positions are passed in a scrambled order (fixed permutation of the request) and the records put back: the
+    # property is about the value at a position, whatever the order of the request
+    z = np.atleast_1d(np.asarray(z, float))
+    perm = np.random.default_rng(len(z)).permutation(len(z))
+    sol = ctx.call(s, z[perm], t)
+    inv = np.argsort(perm)
+    return (np.asarray(sol["temperature_rad"], float)[inv] / Tbc) ** 4, (np.asarray(sol["temperature_mat"], float)[inv] / Tbc) ** 4
 
 
 def run(ctx, p):
